@@ -17,6 +17,7 @@ package flags
 //@ func (*Multiperiod).Partition
 //@   requires mp != nil
 //@   modifies nothing
+//@   ensures contiguous(result.periods) && ascendingEnds(result.periods) && fresh(result.periods) && len(result.periods) >= 0
 //
 //@ func (IntervalFlags).Value
 //@   modifies nothing
